@@ -31,6 +31,10 @@ meta["confirmed"] = confirmed
 meta["demo_output_with_patch"] = r1.stdout[-1500:]
 results = []
 if confirmed:
+    # several chains (one per property) may confirm their demonstrations in parallel; /repo is patched by one at a time
+    import fcntl
+    _lock = open(os.path.join(V, "build", ".seedtest.lock"), "w")
+    fcntl.flock(_lock, fcntl.LOCK_EX)
     ap = sh("git -C /repo apply %s/patch.diff" % demo)
     try:
         if ap.returncode != 0:
